@@ -1,6 +1,9 @@
 package c11
 
 import (
+	"encoding/json"
+	"fmt"
+
 	. "verifharness/common"
 )
 
@@ -242,6 +245,192 @@ func gen(r *Rand) Input {
 				default:
 					pp.Nodes = append(pp.Nodes, "ok")
 				}
+			}
+			in.Ops = append(in.Ops, pp)
+		}
+	}
+	return in
+}
+
+// ---------------------------------------------------------------------------------------------
+// Real v2 execution configurations.
+
+func relayKey(a int) string { return fmt.Sprintf("@%d@", a) }
+
+func genRealCfg(r *Rand, vals []ValidatorIn, nrelays int) map[string]any {
+	cfg := map[string]any{"version": 2}
+	if r.Chance(3, 4) {
+		cfg["fee_recipient"] = hexFee(uint64(r.Range(1, 6)))
+	}
+	if r.Chance(1, 2) {
+		cfg["gas_limit"] = "36000000"
+	}
+	relays := map[string]any{}
+	for a := 1; a <= nrelays; a++ {
+		if !r.Chance(3, 4) {
+			continue
+		}
+		rc := map[string]any{}
+		if r.Chance(1, 3) {
+			rc["fee_recipient"] = hexFee(uint64(r.Range(1, 6)))
+		}
+		if r.Chance(1, 4) {
+			rc["gas_limit"] = fmt.Sprint(gasChoices[r.Intn(len(gasChoices))])
+		}
+		relays[relayKey(a)] = rc
+	}
+	cfg["relays"] = relays
+	proposers := []any{}
+	for _, v := range vals {
+		if !r.Chance(1, 2) {
+			continue
+		}
+		e := map[string]any{}
+		if r.Bool() {
+			e["proposer"] = hexPub(v.Pub)
+		} else {
+			e["proposer"] = fmt.Sprintf("<unknown>/account-%d", v.Acct)
+		}
+		if r.Chance(1, 2) {
+			e["fee_recipient"] = hexFee(uint64(r.Range(1, 6)))
+		}
+		if r.Chance(1, 3) {
+			e["gas_limit"] = "30000000"
+		}
+		if r.Chance(1, 5) {
+			e["reset_relays"] = true
+		}
+		if nrelays > 0 && r.Chance(1, 2) {
+			prs := map[string]any{}
+			for k := r.Range(1, 2); k > 0; k-- {
+				pr := map[string]any{}
+				switch r.Intn(4) {
+				case 0:
+					pr["disabled"] = true
+				case 1:
+					pr["fee_recipient"] = hexFee(uint64(r.Range(1, 6)))
+				case 2:
+					pr["gas_limit"] = "2"
+				}
+				prs[relayKey(r.Range(1, nrelays))] = pr
+			}
+			e["relays"] = prs
+		}
+		proposers = append(proposers, e)
+	}
+	if r.Chance(1, 3) {
+		// a catch-all by account name for the rest
+		proposers = append(proposers, map[string]any{"proposer": "<unknown>/account-.*", "gas_limit": "1"})
+	}
+	cfg["proposers"] = proposers
+	return cfg
+}
+
+// breakCfg puts the entry that cannot be applied somewhere in the proposers list: every validator
+// not matched before it can no longer be resolved.
+func breakCfg(r *Rand, cfg map[string]any) map[string]any {
+	c := cloneCfg(cfg)
+	ps, _ := c["proposers"].([]any)
+	at := r.Intn(len(ps) + 1)
+	out := append([]any{}, ps[:at]...)
+	out = append(out, map[string]any{"proposer": zeroProposer})
+	out = append(out, ps[at:]...)
+	c["proposers"] = out
+	return c
+}
+
+func cloneCfg(cfg map[string]any) map[string]any {
+	b, _ := json.Marshal(cfg)
+	var c map[string]any
+	_ = json.Unmarshal(b, &c)
+	return c
+}
+
+func changeCfg(r *Rand, cfg map[string]any) map[string]any {
+	c := cloneCfg(cfg)
+	switch r.Intn(3) {
+	case 0:
+		c["fee_recipient"] = hexFee(uint64(r.Range(1, 6)))
+	case 1:
+		if c["gas_limit"] == nil {
+			c["gas_limit"] = "36000000"
+		} else {
+			delete(c, "gas_limit")
+		}
+	default:
+		ps, _ := c["proposers"].([]any)
+		if len(ps) > 0 {
+			if e, ok := ps[r.Intn(len(ps))].(map[string]any); ok {
+				e["fee_recipient"] = hexFee(uint64(r.Range(1, 6)))
+			}
+		} else {
+			c["fee_recipient"] = hexFee(uint64(r.Range(1, 6)))
+		}
+	}
+	return c
+}
+
+func cfgText(cfg map[string]any) string {
+	b, _ := json.Marshal(cfg)
+	return string(b)
+}
+
+// genReal: a history whose rounds run on real v2 configurations A, B (a change of A), A again,
+// with the unusable proposer entry appearing in some rounds.
+func genReal(r *Rand) Input {
+	in := Input{NNodes: r.Range(0, 2), NPrepNodes: r.Range(1, 2), Fallback: uint64(r.Range(7, 9))}
+	nvals := r.Range(1, 5)
+	nrelays := r.Range(1, 3)
+	idx := r.Perm(12)
+	for i := 0; i < nvals; i++ {
+		in.Validators = append(in.Validators, ValidatorIn{Index: uint64(idx[i] + 1), Acct: uint64(100 + i), Pub: uint64(200 + 10*i)})
+	}
+	a := genRealCfg(r, in.Validators, nrelays)
+	b := changeCfg(r, a)
+	pats := [][]byte{{'A', 'A'}, {'A', 'B', 'A'}, {'A', 'B', 'B', 'A'}, {'A', 'A', 'B'}}
+	pat := pats[r.Intn(len(pats))]
+	for _, p := range pat {
+		cfg := a
+		if p == 'B' {
+			cfg = b
+		}
+		if r.Chance(1, 3) {
+			cfg = breakCfg(r, cfg)
+		}
+		text := cfgText(cfg)
+		op := Op{Kind: "round", Dt: uint64(r.Range(1, 30)), Cfg: true, API: r.Chance(1, 4), RealCfg: text}
+		for i := 0; i < nvals; i++ {
+			vi := ValIn{V: i}
+			if r.Chance(1, 8) {
+				vi.Sign = []bool{false}
+			}
+			op.Vals = append(op.Vals, vi)
+		}
+		if r.Chance(1, 3) {
+			op.Relays = genKinds(r, nrelays, true)
+		}
+		for k := 0; k < in.NNodes; k++ {
+			op.Nodes = append(op.Nodes, "ok")
+		}
+		in.Ops = append(in.Ops, op)
+		if r.Chance(1, 3) {
+			f := Op{Kind: "forward", Dt: 1, Cfg: true, RealCfg: text}
+			for k := r.Range(1, 3); k > 0; k-- {
+				pub := uint64(900 + r.Intn(2))
+				if r.Bool() {
+					pub = in.Validators[r.Intn(nvals)].Pub
+				}
+				f.Incoming = append(f.Incoming, RegIn{Pub: pub, Fee: uint64(r.Range(1, 6)), Gas: 30000000, Stamp: uint64(r.Range(0, 50)), SigAcct: 500, SigStamp: uint64(r.Range(0, 50))})
+			}
+			in.Ops = append(in.Ops, f)
+		}
+		if r.Chance(1, 2) {
+			pp := Op{Kind: "prepare", Dt: 1, Cfg: true, RealCfg: text}
+			for i := 0; i < nvals; i++ {
+				pp.Vals = append(pp.Vals, ValIn{V: i})
+			}
+			for k := 0; k < in.NPrepNodes; k++ {
+				pp.Nodes = append(pp.Nodes, "ok")
 			}
 			in.Ops = append(in.Ops, pp)
 		}
